@@ -145,6 +145,7 @@ impl BucketIndex {
     /// recognition of the fact that the only key with distance `0` to a
     /// `local_key` is the `local_key` itself, which does not belong in any
     /// bucket.
+    #[cfg_attr(kani, kani::ensures(|r: &Option<BucketIndex>| verif::c40::post_bucket_index(d, r)))]
     fn new(d: &Distance) -> Option<BucketIndex> {
         d.ilog2().map(|i| BucketIndex(i as usize))
     }
@@ -842,4 +843,9 @@ mod tests {
             .tests(10)
             .quickcheck(prop as fn(_, _) -> _)
     }
+}
+
+#[cfg(kani)]
+pub(crate) mod verif {
+    include!(concat!(env!("LIBP2P_VERIF"), "/hooks/kad_kbucket.rs"));
 }
